@@ -21,6 +21,7 @@ and the printed host text are required to denote the same host and to be equal b
 the two IPv6 serialisers involved (std for the stored pair, the url crate for printing) legitimately
 differ: IPv4-mapped addresses are stored as `::ffff:1.2.3.4` and printed as `[::ffff:102:304]`; those are
 counted in the evidence (`stored_text_differs_from_printed`), not reported."""
+import zlib
 import ipaddress, json, os, re, shutil, tempfile, urllib.parse
 import lib
 
@@ -224,6 +225,10 @@ CORPUS = [
     "::1:1", "a b:1", "xn--bcher-kva.de:0000000001", "1.2.3.4.:1", "a&b:1", "a+b:1", "a:1:2", "a:00000000000000000000065535",
     "a:00000000000000000000065536", "256:1", "4294967296:1", "a.1:1", "[::ffff:1.2.3.04]:1", "a:1\n", "a\n:1", "", ":", "a:", "a",
     "[::1]", "[::1]:", "[::1]:+1", "1:2:3:4:5:6:7:8:80", "[1:2:3:4:5:6:7:8:9]:1", "[::1]:1٣", "a:٣1", "\u0661.com:1",
+    # characters an option parser may treat as a list separator are ordinary host characters (seeded change C17-9: --peer split
+    # at commas by clap), and what looks like a list is one malformed value
+    "a,b.example:6881", "a,b,c.example:1", ",a.example:2", "a.example,:3", "a;b.example:4", "a=b.example:5", "a b,c.example:6",
+    "a.example:1,b.example:2", "a.example:1,b.example", "1.2.3.4:5,6.7.8.9:10", "[::1]:1,[::2]:2",
 ]
 
 
@@ -641,6 +646,11 @@ def e2e(ctx, cases, accepted, printed, stored):
                 f.write(b"hello\n")
             texts = [cases[i][1] for i in g]
             a1 = ["torrent", "create", "--input", "f", "--output", "o.torrent"] + sum((arg("--node", t) for t in texts), [])
+            # other options of the same command do not change what a --node value becomes (seeded change C17-7: nodes
+            # dropped when --private is given)
+            extra = [[], [], ["--private", "--announce", "http://t.example/announce"], ["--md5"], ["--no-creation-date", "--comment", "c"],
+                     ["--private", "--allow", "private-trackerless"]][zlib.crc32(" ".join(texts).encode("utf-8", "surrogateescape")) % 6]
+            a1 += extra
             res = {"texts": texts, "create": ctx.imdl(a1, cwd=d), "argv": ["imdl"] + a1}
             p = os.path.join(d, "o.torrent")
             res["torrent"] = open(p, "rb").read() if os.path.exists(p) else None
